@@ -90,7 +90,7 @@ StringDictionaryHTFC::StringDictionaryHTFC(IteratorDictString *it,
     uchar *tmp = new uchar[4 * maxlength];
 
     size_t reservedStrings = MEMALLOC * bucketsize;
-    textStrings = new uchar[reservedStrings];
+    textStrings = new uchar[reservedStrings]();
     bytesStrings = 0;
     textStrings[bytesStrings] = 0;
 
